@@ -161,6 +161,19 @@ VARIANTS = [
     V("arg-reduction shortcut hands the tuple of intermediates on, counts are appended later", ("C19",), "R-SEQKIND", "core.py", '                "intermediates": list(array_idx),', '                "intermediates": array_idx,', must_mention="tuple"),
     V("twin: intermediates unpacked into a list display", ("C19",), "", "core.py", '                "intermediates": list(array_idx),', '                "intermediates": [*array_idx],', expect="silent"),
     V("blockwise result slots built as a tuple, arg index rewritten in place", ("C19",), "R-SEQKIND", "core.py", '    results: IntermediateDict = {"groups": [], "intermediates": []}\n', '    results: IntermediateDict = {"groups": [], "intermediates": ()}\n', must_mention="tuple"),
+    V("blockwise plan: size-1 label dimensions no longer broadcast", ("C19", "C11"), "R-BLOCKBCAST", "core.py", '        if method == "blockwise" and not any_by_dask and by_.shape != array.shape[-by_.ndim :]:\n            # size-1 dimensions of `by`: the per-block label lists need the labels of every block\n            by_ = np.broadcast_to(by_, array.shape[-by_.ndim :])\n', '', must_mention="by_"),
+    V("blockwise plan: labels broadcast only for partial-axis reductions", ("C19", "C11"), "R-BLOCKBCAST", "core.py", '        if method == "blockwise" and not any_by_dask and by_.shape != array.shape[-by_.ndim :]:\n            # size-1', '        if method == "blockwise" and not any_by_dask and nax != by_.ndim and by_.shape != array.shape[-by_.ndim :]:\n            # size-1', must_mention="by_"),
+    V("twin: broadcast guard conjuncts reordered", ("C19", "C11"), "", "core.py", '        if method == "blockwise" and not any_by_dask and by_.shape != array.shape[-by_.ndim :]:\n            # size-1', '        if by_.shape != array.shape[-by_.ndim :] and not any_by_dask and method == "blockwise":\n            # size-1', expect="silent"),
+    V("twin: labels always broadcast for in-memory labels", ("C19", "C11"), "", "core.py", '        if method == "blockwise" and not any_by_dask and by_.shape != array.shape[-by_.ndim :]:\n            # size-1', '        if not any_by_dask:\n            # size-1', expect="silent"),
+    V("planner: no early map-reduce proposal when no requested label is present", ("C19",), "R-EMPTYCOHORTS", "core.py", '    if not present_labels_mask.any():\n        # none of the requested labels is present: there is nothing to group (and no cohort to form), any plan will do\n        return "map-reduce", {}\n', '', must_mention="empty cohort map"),
+    V("planner: absence guard tests an unrelated quantity", ("C19",), "R-EMPTYCOHORTS", "core.py", '    if not present_labels_mask.any():\n        # none of', '    if nchunks == 0:\n        # none of', must_mention="empty cohort map"),
+    V("twin: absence guard written as a zero count", ("C19",), "", "core.py", '    if not present_labels_mask.any():\n        # none of', '    if present_labels_mask.sum() == 0:\n        # none of', expect="silent"),
+    V("numpy re-indexer gathers with get_indexer and never fills the absent labels", ("C09", "C05", "C02"), "R-INDEXER", "core.py", '    if (idx == -1).any():\n        if fill_value is None:\n            raise ValueError("Filling is required. fill_value cannot be None.")\n        indexer[axis] = idx == -1\n        reindexed = reindexed.astype(dtype, copy=False)\n        reindexed[tuple(indexer)] = fill_value\n', '', must_mention="-1"),
+    V("twin: absent mask bound to a local first", ("C09", "C05", "C02"), "", "core.py", '    if (idx == -1).any():\n        if fill_value is None:\n            raise ValueError("Filling is required. fill_value cannot be None.")\n        indexer[axis] = idx == -1\n', '    absent = idx == -1\n    if absent.any():\n        if fill_value is None:\n            raise ValueError("Filling is required. fill_value cannot be None.")\n        indexer[axis] = absent\n', expect="silent"),
+    V("collapsed block axes written as one axis with k-1 chunks", ("C11", "C19"), "R-ARITY", "core.py", '((1,),) * (len(axis) - 1) + group_chunks', '((1,) * (len(axis) - 1),) + group_chunks', must_mention="len(axis) == 2"),
+    V("twin: repetition count written first", ("C11", "C19"), "", "core.py", '((1,),) * (len(axis) - 1) + group_chunks', '(len(axis) - 1) * ((1,),) + group_chunks', expect="silent"),
+    V("twin: last index taken as a slice", ("C11", "C19"), "", "core.py", 'out_inds = new_inds + inds[: -len(axis)] + (inds[-1],)', 'out_inds = new_inds + inds[: -len(axis)] + inds[-1:]', expect="silent"),
+    V("output indices keep one reduced axis too many", ("C11", "C19"), "R-ARITY", "core.py", 'out_inds = new_inds + inds[: -len(axis)] + (inds[-1],)', 'out_inds = new_inds + inds[: -len(axis) + 1] + (inds[-1],)', must_mention="zip(out_inds"),
     V("dtype promotion memoised with an untyped key", ("C14",), "R-MEMO", "xrdtypes.py", '        dtype = np.result_type(dtype, fill_value)\n    return dtype\n',
       '        dtype = _promote_for_fill_value(dtype, fill_value)\n    return dtype\n\n\n@functools.lru_cache\ndef _promote_for_fill_value(dtype: np.dtype, fill_value) -> np.dtype:\n    return np.result_type(dtype, fill_value)\n', must_mention="typed"),
     V("twin: dtype promotion memoised with typed=True", ("C14",), "", "xrdtypes.py", '        dtype = np.result_type(dtype, fill_value)\n    return dtype\n',
